@@ -69,6 +69,15 @@ CATALOGUES["perm2"] = dict(version="gfa2", lines=[
 ], ids=["a", "b", "c", "e1", "g1", "o1", "o2", "u1"], renames=[])
 
 
+CATALOGUES["ver"] = dict(version="none", lines=[
+    "H|xx:i:1", "H|VN:Z:1.0", "H|VN:Z:2.0", "H|VN:Z:3.0",
+    "S|A|*", "S|a|3|*",
+    "L|A|+|B|+|*", "C|A|+|B|+|0|*", "P|p|A+,B+|*",
+    "E|e|a+|b+|0|1|2|3$|*", "F|a|x+|0|1|0|1|*", "G|g|a+|b-|5|*", "O|o|a+ b+", "U|u|a b",
+    "X|custom|1", "#| c",
+], ids=["A", "a"], renames=[])
+
+
 def text_of(src):
     return src.replace("|", "\t")
 
@@ -110,7 +119,7 @@ def _load_gfapy():
 
 
 def find_instance(gfa, text, version):
-    want = project.abstract_text(text, version)
+    want = abstract_input(text)
     wantn = (want["rt"], want["name"], json.dumps(want["refs"]), tuple(want["f"]), tuple(want["tags"]))
     for o in gfa.lines:
         if o.virtual or o.record_type == "H":
@@ -139,6 +148,8 @@ def apply_op(gfapy, gfa, op, version):
     k = op["k"]
     if k == "add":
         gfa.add_line(op["text"])
+    elif k == "load":
+        return load_entry(gfapy, op, gfa)
     elif k == "flush":
         gfa.process_line_queue()
     elif k == "rm":
@@ -161,6 +172,28 @@ def apply_op(gfapy, gfa, op, version):
         raise MachineryError("unknown op " + k)
 
 
+def load_entry(gfapy, op, gfa):
+    """whole-document entry points; returns the new Gfa (the trace continues on it)"""
+    kw = dict(vlevel=gfa._vlevel, version=op.get("cfgversion"))
+    entry = op["id"]
+    texts = op["texts"]
+    if entry == "list":
+        return gfapy.Gfa(list(texts), **kw)
+    if entry == "str":
+        return gfapy.Gfa("\n".join(texts), **kw)
+    if entry in ("file", "filecrlf", "filenonl"):
+        eol = "\r\n" if entry == "filecrlf" else "\n"
+        body = eol.join(texts) + ("" if entry == "filenonl" else eol)
+        path = os.path.join(WORK, "load-%d.gfa" % os.getpid())
+        with open(path, "w", newline="") as f:
+            f.write(body)
+        try:
+            return gfapy.Gfa.from_file(path, **kw)
+        finally:
+            os.unlink(path)
+    raise MachineryError("unknown entry " + entry)
+
+
 def replay_one(job):
     """job = dict(id, kind, cfg, ops, universe). Returns trace dict with local pool."""
     gfapy = _load_gfapy()
@@ -177,7 +210,9 @@ def replay_one(job):
         exc = ""
         signal.setitimer(signal.ITIMER_REAL, 5.0)
         try:
-            apply_op(gfapy, gfa, op, ver or (gfa._version))
+            ng = apply_op(gfapy, gfa, op, ver or (gfa._version))
+            if ng is not None:
+                gfa = ng
         except Timeout:
             res, exc = "FOREIGN", "timeout"
         except MachineryError:
@@ -189,14 +224,20 @@ def replay_one(job):
             signal.setitimer(signal.ITIMER_REAL, 0)
         lidx = 0
         if op.get("text"):
-            lidx = pool.add(project.abstract_text(op["text"], ver or _guess_version(op["text"])))
+            lidx = pool.add(abstract_input(op["text"]))
+        ls = [pool.add(abstract_input(t)) for t in op.get("texts", [])]
         obs = project.observe(gfa, pool, universe)
-        evs.append({"op": {"k": op["k"], "l": lidx, "id": op["id"], "id2": op["id2"]},
+        evs.append({"op": {"k": op["k"], "l": lidx, "id": op["id"], "id2": op["id2"], "ls": ls},
                     "res": res, "exc": exc, "obs": obs})
         if "broken" in obs:
             break
     return {"id": job["id"], "kind": job["kind"], "cfg": cfg, "init": init, "ev": evs,
             "pool": pool.items, "src": job["ops"]}
+
+
+def abstract_input(text):
+    """abstraction of a line offered to gfapy: by the line's own syntax, not the Gfa's version"""
+    return project.abstract_text(text, _guess_version(text))
 
 
 def _guess_version(text):
@@ -226,6 +267,7 @@ def merge_pools(traces):
         fix(t["init"])
         for e in t["ev"]:
             e["op"]["l"] = m[e["op"]["l"]]
+            e["op"]["ls"] = [m[x] for x in e["op"]["ls"]]
             fix(e["obs"])
         out.append({k: v for k, v in t.items() if k not in ("pool", "src")})
     for t in traces:
@@ -333,7 +375,7 @@ def catalog_json(catname, depth, cfgversion=None, vlevel=1, ops=None):
     for op in ops:
         l = 0
         if op["text"]:
-            l = pool.add(project.abstract_text(op["text"], cat["version"]))
+            l = pool.add(abstract_input(op["text"]))
         out.append({"k": op["k"], "l": l, "id": op["id"], "id2": op["id2"]})
     return {"cfg": {"version": ver, "vlevel": vlevel}, "pool": pool.items, "ops": out,
             "depth": depth}, ops
